@@ -173,6 +173,24 @@ void capacity_run(unsigned n, unsigned pattern, Stats& st) {
 	st.cls("capacity_run");
 	st.nt(hmix(n, pattern) ^ 0xCA);
 }
+// one symbol far ahead of everything else (its lead passing 2^15 and approaching 2^16), then cold symbols: differences of counts that do not
+// fit a signed or a narrower type, a hot leaf directly under the root while other leaves move
+void hot_cold_run(unsigned n, unsigned hot, unsigned lead, Stats& st) {
+	AdaptiveHuffmanTree tree{uint16_t(n)}; RefHuff ref{int(n)};
+	std::string ctx = "[hot/cold run n=" + std::to_string(n) + " hot=" + std::to_string(hot) + " lead=" + std::to_string(lead) + "]";
+	for (unsigned i = 0; i < lead; ++i) { tree.UpdateCodeCount(uint16_t(hot)); ref.update(int(hot)); if (i % 8191 == 0) check_tree(tree, ref, ctx + " during the hot phase"); }
+	check_tree(tree, ref, ctx + " after the hot phase");
+	uint64_t s = 1234567 + n + lead;
+	for (unsigned k = 0; k < 24 && !ref.at_capacity(); ++k) {
+		s ^= s << 13; s ^= s >> 7; s ^= s << 17;
+		unsigned sym = k < 8 ? (hot + 1 + k) % n : unsigned((s >> 16) % n);
+		tree.UpdateCodeCount(uint16_t(sym)); ref.update(int(sym));
+		check_tree(tree, ref, ctx + " after cold update " + std::to_string(k + 1) + " (symbol " + std::to_string(sym) + ")");
+		if (k % 5 == 4 && !ref.at_capacity()) { tree.UpdateCodeCount(uint16_t(hot)); ref.update(int(hot)); check_tree(tree, ref, ctx + " after a hot update between cold ones"); }
+	}
+	st.cls("hot_cold_run"); st.nt(hmix(n * 70000 + lead, hot) ^ 0x4C);
+}
+
 // histories that make the tree as deep as the counters allow: k 'chain' symbols receive Fibonacci multiples of the weight R of
 // all remaining symbols (ascending), which stacks them one per level above the rest; codes of 17..22 bits arise within capacity
 void deep_run(unsigned n, unsigned order, Stats& st) {
@@ -220,6 +238,7 @@ void run_sweep(Stats& st) {
 	for (unsigned n : {2u, 3u, 314u}) for (unsigned pattern = 0; pattern < 3; ++pattern) { if (!sw("capacity", n, pattern)) continue; capacity_run(n, pattern, st); }
 	if (g_thorough) for (unsigned n : {4u, 5u, 17u, 100u, 313u}) { if (!sw("capacity", n, 2)) continue; capacity_run(n, 2, st); }
 	for (unsigned n : {24u, 40u, 100u, 314u}) for (unsigned order = 0; order < 2; ++order) { if (!sw("deep", n, order)) continue; deep_run(n, order, st); }
+	for (unsigned n : {2u, 3u, 5u, 314u}) for (unsigned lead : {127u, 128u, 255u, 256u, 32766u, 32767u, 32768u, 32769u, 33100u, 40000u, 65000u}) { if (lead + n + 40 > 65535) continue; if (!sw("hot_cold", n, lead)) continue; hot_cold_run(n, (n * 3 / 4) % n, lead, st); }
 	st.exhaustive = true;
 }
 
